@@ -101,13 +101,13 @@ ObsInvalid(st, obs) == {j \in 1..Len(obs) : Known(st, obs[j].k) /\ ~ValOK(Resolv
 
 OpSig(ev) == IF ev.op = "configure" /\ \E j \in 1..Len(ev.D) : ev.D[j].r.t = "none" THEN "configure-U" ELSE ev.op
 
-\* circumstance that qualifies a signature: keys of yielding boolean subproject options that were `-U`nset while
-\* they held their own value and the parent's value was false
+\* circumstance that qualifies a signature: keys of boolean subproject options declared yield:true that were
+\* `-U`nset while the parent's value was false
 UnsetFalseParent(st, ev) ==
     IF ev.op # "configure" THEN {}
     ELSE {ev.D[j].k : j \in {j \in 1..Len(ev.D) :
             LET k == ev.D[j].k IN
-            /\ ev.D[j].r.t = "none" /\ k \in DOMAIN st.o /\ st.o[k].p /\ ~st.o[k].y
+            /\ ev.D[j].r.t = "none" /\ k \in DOMAIN st.o /\ st.o[k].p
             /\ st.o[k].d.kind = "boolean" /\ st.o[AsRoot(k)].v = VBool(FALSE)}}
 
 RECURSIVE JudgeFrom(_, _, _, _)
